@@ -104,6 +104,7 @@ func (v ReceiverValidator) validateParams(receiver *metadata.ReceiverMeta) ([]di
 			diags = common.AppendIfNotNil(diags, v.validateBodyParam(receiver, param))
 		default:
 			diags = common.AppendIfNotNil(diags, v.validateNonBodyParam(receiver, param, *passedIn))
+			diags = common.AppendIfNotNil(diags, v.validateParamSchemaName(receiver, param))
 		}
 
 		diags = common.AppendIfNotNil(diags, v.validateParamsCombinations(processedParams, param, *passedIn))
@@ -222,6 +223,32 @@ func (v ReceiverValidator) validateNonBodyParam(
 }
 
 // This function is deprecated - no need to test here, all validation moved to the NewAnnotationHolder logic
+// validateParamSchemaName rejects schema names that cannot be written into the generated handlers.
+//
+// The name a parameter has in the schema is emitted verbatim inside Go string literals of the routes file,
+// so a double quote, a backslash or a control character would break (or escape) the literal
+func (v ReceiverValidator) validateParamSchemaName(
+	receiver *metadata.ReceiverMeta,
+	param metadata.FuncParam,
+) *diagnostics.ResolvedDiagnostic {
+	schemaName := getParamSchemaNameOrFallback(param, "")
+	if !strings.ContainsFunc(schemaName, func(r rune) bool { return r == '"' || r == '\\' || r < ' ' }) {
+		return nil
+	}
+
+	diag := diagnostics.NewErrorDiagnostic(
+		receiver.Annotations.FileName(),
+		fmt.Sprintf(
+			"parameter '%s' has schema name %q which contains a quote, a backslash or a control character",
+			param.Name,
+			schemaName,
+		),
+		diagnostics.DiagReceiverParamInvalidSchemaName,
+		param.Range,
+	)
+	return &diag
+}
+
 func (v ReceiverValidator) validateParamsCombinations(
 	funcParams []funcParamEx,
 	newParam metadata.FuncParam,
